@@ -74,6 +74,9 @@ def _make(spec):
         _ = (g.data_shape, g.data_size)
         g.data_location = spec["location"]
         return g
+    if spec.get("via_to_rectilinear") and spec["cls"] in ("uniform", "esri"):
+        # history: the rectilinear cast of a uniform / ESRI grid describes the same locations in the same layout
+        return mg.make_grid(spec).to_rectilinear()
     if spec.get("uniform_axes"):
         axes = [ax if inc else ax[::-1] for ax, inc in zip(_base_axes(spec), spec["increase"])]
         return fm.RectilinearGrid([np.array(a, dtype=float) for a in axes], order=spec["order"], axes_reversed=spec["reversed"], data_location=spec["location"])
@@ -173,6 +176,10 @@ class C15(Property):
                 a = dict(a, via_location_change=True)
             if rnd.random() < 0.15:
                 b = dict(b, via_location_change=True)
+            if rnd.random() < 0.12:
+                a = dict(a, via_to_rectilinear=True)
+            if rnd.random() < 0.12:
+                b = dict(b, via_to_rectilinear=True)
             if rnd.random() < 0.1 and not a.get("uniform_axes") and not b.get("uniform_axes"):
                 a, b = dict(a, crs="EPSG:32632"), dict(b, crs="EPSG:32632")  # the same reference system on both sides
             return dict(kind="same", a=a, b=b, masked=masked, mseed=rnd.randrange(1 << 30))
@@ -219,6 +226,8 @@ class C15(Property):
         out.count("compatible_pairs")
         if a.get("via_location_change") or b.get("via_location_change"):
             out.count("grids_with_changed_data_location")
+        if any(x.get("via_to_rectilinear") and x["cls"] in ("uniform", "esri") for x in (a, b)):
+            out.count("grids_made_by_to_rectilinear")
         # compatible_with / equality
         if not ga.compatible_with(gb) or not gb.compatible_with(ga):
             out.viol("compatible_false_negative", "grids with identical data locations reported incompatible", a=a, b=b)
@@ -308,7 +317,7 @@ class C15(Property):
 
     def coverage_gaps(self, counters, tier):
         need = ["compatible_pairs", "incompatible_pairs", "canonical_roundtrips", "transforms_no_time", "transform_none_equal_layout",
-                "link_pulls", "masked_link_pulls", "relayout_links", "equal_layout_links", "incompatible_links_refused", "grids_with_changed_data_location", "static_link_pulls"]
+                "link_pulls", "masked_link_pulls", "relayout_links", "equal_layout_links", "incompatible_links_refused", "grids_with_changed_data_location", "grids_made_by_to_rectilinear", "static_link_pulls"]
         return [f"{k} never observed" for k in need if not counters.get(k)]
 
 
